@@ -312,11 +312,23 @@ def judge_state(r, s, kind, d, X, y, p, warned_threshold, scores, leg_is_warm, n
     consistent = len(set(lens.values())) == 1
     d1 = False
     if not consistent:
-        if warned_threshold:
+        # known finding D1, sharp: after a threshold stop the stored rows/columns have the right count
+        # (n_selected_) and the right width, while selected_idx_ (and y_selected_) were cut at the LOOP
+        # INDEX of this fit (= number of score() calls of this fit - 1)
+        loop_index = (len(scores) - 1) if scores else None
+        other = Xs.shape[1 - axis] == X.shape[1 - axis]
+        if (
+            warned_threshold
+            and lens["X_selected"] == n_sel
+            and other
+            and loop_index is not None
+            and lens["idx"] == min(loop_index, n_sel)
+            and lens.get("y_selected", lens["idx"]) == lens["idx"]
+        ):
             d1 = True
             r.fail("D1-threshold-stop-truncation", "after a threshold stop: %s" % lens)
         else:
-            r.fail("length-mismatch", "%s" % lens)
+            r.fail("length-mismatch", "%s (X_selected_ shape %s)" % (lens, Xs.shape))
     expected = _expected_sizes(p.get("n_to_select"), N)
     if n_sel not in expected:
         if not warned_threshold:
